@@ -73,11 +73,12 @@ def data2coord_small_scope(P, R, d2c):
             break
     if undec:
         R.abstain('C08.d', d2c, None, f'the scaling helper uses a construct the small-scope evaluator does not model ({undec})', construct='_data2coord small-scope')
-        return
+        return False
     R.count('typed_ops', total)
     R.exhaustive_sites['C08.d _data2coord: 11 values x 3 ranges x grids of 1, 2, 4, 8 cells'] = True
     R.check(not bad, 'C08.d', d2c, None, f'values are scaled, truncated and clamped to the grid; NaN (missing / empty elements) lands in cell 0 ({total} range x grid combinations)',
             f'the scaling helper differs from scale-truncate-clamp on {len(bad)} of {total} combinations, e.g. {bad[:1]}', construct='_data2coord small-scope', counterexamples=bad[:4])
+    return True
 
 
 def interleave_small_scope(P, R):
@@ -320,7 +321,7 @@ def run(P, R, tier):
             construct='degenerate extent widened on the path to the scaling')
 
     # ---------------------------------------------------------------- C08.d
-    data2coord_small_scope(P, R, d2c)
+    d2c_decided = data2coord_small_scope(P, R, d2c)
     interleave_small_scope(P, R)
     C = cfgmod.build(d2c.node)
     rets = [s for s in walk_own(d2c.node) if isinstance(s, ast.Return)]
@@ -340,7 +341,8 @@ def run(P, R, tier):
                     hi = s
                 if op is ast.GtE and '- 1' in norm(s.value) and norm(r_) in (norm(s.value), norm(s.value).replace(' - 1', '')):
                     hi = s
-    for nm, st in (('lower clip (<0 -> 0)', lo), ('upper clip (>n-1 -> n-1)', hi)):
+    # the idiom form of the clamp is only consulted when the evaluation above could not decide the helper as a whole
+    for nm, st in (() if d2c_decided else (('lower clip (<0 -> 0)', lo), ('upper clip (>n-1 -> n-1)', hi))):
         ok = st is not None and all(C.dominates(C.node(st), C.node(r)) for r in rets)
         R.check(ok, 'C08.d', d2c, st, f'{nm} dominates the return', f'{nm} is missing or can be bypassed: centres on the upper edge / outside total_bounds leave the grid',
                 construct=nm)
